@@ -808,6 +808,10 @@ class Spec:
     trusted_base: list[str] = field(default_factory=list)
     assumptions: list[str] = field(default_factory=list)
     extra_theorems: list[str] = field(default_factory=list)   # audited in addition to those in proof_modules
+    # Composition modules that import OTHER properties' proofs (Proofs/System*.lean). They are built,
+    # audited and counted when they build; when they do not (another property's proof is broken by
+    # the change under test) that is noted, not reported as a violation of THIS property.
+    soft_proof_modules: list[str] = field(default_factory=list)
     harness_args: list[str] = field(default_factory=list)
     env_extra: Optional[dict] = None
     divergence_is_violation: bool = False          # pure functions whose every output the property fixes
@@ -883,6 +887,25 @@ def proof_obligations(ctx: Ctx, spec: Spec) -> tuple[bool, list[str]]:
     else:
         ctx.coverage["discharged"] = 0
     ctx.coverage["theorems"] = thms
+    # soft (composition) modules --------------------------------------------------------------
+    for m in getattr(spec, "soft_proof_modules", []):
+        ok_s, out_s = lake_build([m])
+        sthms = theorems_in(m)
+        if not ok_s:
+            ctx.notes.append(f"composition module {m} does not build (it imports other properties' proofs; "
+                             f"not counted, not an alarm for {spec.pid}): " + "; ".join(failing_theorems(out_s, [m]))[:600])
+            ctx.coverage.setdefault("soft_modules_failed", []).append(m)
+            continue
+        hits_s = banned_scan([m])
+        ax_s, _ = audit_axioms([m], sthms)
+        bad_s = [t for t in sthms if t not in ax_s or [a for a in ax_s[t] if a not in ALLOWED_AXIOMS]]
+        if hits_s or bad_s:
+            broken += [f"banned construct: {h}" for h in hits_s] + [f"axiom audit: {t}" for t in bad_s]
+            continue
+        ctx.coverage["obligations"] += len(sthms)
+        ctx.coverage["discharged"] += len(sthms)
+        ctx.coverage["theorems"] = ctx.coverage["theorems"] + sthms
+        ctx.coverage.setdefault("composition_modules", []).append(m)
     return (not broken), broken
 
 
